@@ -112,13 +112,35 @@ def codec(ctx, f, quick):
         lst = []
         cases.enumerate_cases(CODEC, consts, ctx, "codec_domain_" + fam, lambda i, o, lst=lst: lst.append(i))
         doms[fam] = (lst, consts)
+    # the string field first, in the middle and last (the last field is where terminator handling shows)
+    orders = {}
+    for kind, base in (("csv", f.CSVRecord), ("tsv", f.TSVRecord)):
+        @dataclass
+        class SFirst(base):
+            text: str
+            n: int
+            w: float
+
+        @dataclass
+        class SLast(base):
+            n: int
+            w: float
+            text: str
+
+        @dataclass
+        class SOnly(base):
+            text: str
+        orders[kind] = [classes[kind], SFirst, SLast, SOnly]
     for kind in ("csv", "tsv"):
-        cls = classes[kind]
-        for c in doms["csv"][0]:
+        for k, c in enumerate(doms["csv"][0]):
             s = "".join(chr(x) for x in c["s"])
-            r = cls(n=INTS[c["i"]], text=s, w=FLOATS[c["f"]])
-            results.append(run_one(r, cls, cps("\r\n")))
-            info.append((kind, c))
+            for cls in (orders[kind] if not quick else [orders[kind][k % 4], orders[kind][(k + 2) % 4]]):
+                if len(cls.field_names()) == 1:
+                    r = cls(text=s)
+                else:
+                    r = cls(n=INTS[c["i"]], text=s, w=FLOATS[c["f"]])
+                results.append(run_one(r, cls, cps("\r\n")))
+                info.append((kind + ":" + cls.__name__, c))
     leaves = []
     for c in doms["json"][0]:
         s = "".join(chr(x) for x in c["s"])
